@@ -12,6 +12,11 @@ from vlib.hyp import run_property
 GRID = [-1.5, -0.5, 0.5, 1.5, 2.5, 3.5, 4.5, 5.5]
 
 
+def has_lm1(c):
+    """lambda_-1 configured (0.0 and 0 are values like any other; `0.0 in ("absent", False)` is True in Python)."""
+    return not (isinstance(c["lm1"], str) or c["lm1"] is False)
+
+
 def invalid_reasons(cfg):
     """The validity predicate transcribed from the statement. Returns the list of violated rules."""
     sim = cfg["simulation"]
@@ -124,7 +129,7 @@ def start_paths(c):
     import math
 
     intf = [float(x) for x in c["interfaces"]]
-    lm1 = c["lm1"] if c["lm1"] not in ("absent", False) else None
+    lm1 = c["lm1"] if has_lm1(c) else None
     lo = math.floor(intf[0] - 1e-9)  # first integer strictly below lambda_0 ... (lambda on the half grid)
     if lo >= intf[0]:
         lo -= 1
@@ -192,7 +197,10 @@ def _init_child(c):
             w = state.prep_md_items(_copy.deepcopy(md_items))
             picks.append(list(w["ens_nums"]))
             pick_engs.append({int(e): sorted(w["picked"][e]["eng_idx"]) for e in w["ens_nums"]})
-        out["init"] = {"diag": diag, "picks": picks, "workers": state.workers, "pick_engs": pick_engs}
+        e0 = state.ensembles[0]
+        out["init"] = {"diag": diag, "picks": picks, "workers": state.workers, "pick_engs": pick_engs,
+                       "ens0": {"interfaces": [float(x) for x in e0["interfaces"]], "start_cond": sorted(e0["start_cond"]) if not isinstance(e0["start_cond"], str) else [e0["start_cond"]]},
+                       "n_ensembles": len(state.ensembles)}
     except Exception as exc:  # noqa: BLE001
         import traceback
 
@@ -275,12 +283,24 @@ def body(rec, c):
             return
         rec.check(all(init["diag"]), "config:loaded-path-has-zero-weight-in-its-ensemble", f"{init['diag']} {info}")
         rec.check(len(init["picks"]) == c["workers"], "config:first-picks", f"{init['picks']} workers {c['workers']}")
+        # the [0-] ensemble: with lambda_-1 (whatever its value, 0.0 included) it lives between lambda_-1 and lambda_0 and its paths
+        # may start on either side; without it, it is open to the left and paths start on the right
+        lm1 = c["lm1"] if has_lm1(c) else None
+        l0 = float(c["interfaces"][0])
+        e0 = init["ens0"]
+        if lm1 is not None:
+            rec.cls("cfg:lambda_minus_one")
+            rec.check(e0["interfaces"][0] == float(lm1) and e0["interfaces"][2] == l0 and sorted(e0["start_cond"]) == ["L", "R"], "config:[0-]-ensemble-not-set-up-for-lambda_minus_one",
+                      f"interfaces {e0['interfaces']} start_cond {e0['start_cond']} lambda_-1 {lm1!r} {info}")
+        else:
+            rec.check(e0["interfaces"][0] == float("-inf") and e0["interfaces"][2] == l0 and e0["start_cond"] == ["R"], "config:[0-]-ensemble-wrong", f"{e0} {info}")
+        rec.check(init["n_ensembles"] == len(c["interfaces"]), "config:number-of-ensembles", f"{init['n_ensembles']} vs {len(c['interfaces'])} interfaces")
         if c["ens_engs"] is not None:
             for pe in init["pick_engs"]:
                 for e, engs in pe.items():
                     rec.check(engs == sorted(set(c["ens_engs"][e + 1])), "config:first-pick-uses-engines-not-configured-for-its-ensemble", f"ensemble {e}: {engs} vs configured {c['ens_engs'][e + 1]} {info}")
         rec.cls("cfg:initialised")
-        if c["quantis"] or c["lm1"] not in ("absent", False):
+        if c["quantis"] or has_lm1(c):
             return  # the lattice plug-in carries no energies for QuanTIS; lambda_-1 runs are exercised in C09/C11
         try:
             r2 = isolate.run_in_fork(_run_child, (0,), cwd=d, timeout=300, kwargs={"_return_exc": True})
